@@ -9,7 +9,7 @@
    The compu-method half is in Properties/C07.v; general parameter trees are
    correspondence + oracle only. *)
 From Coq Require Import ZArith List Bool.
-From OV Require Import Base.Bytes Base.Wire Generated Model.Str Model.Codec Proofs.BytesProofs Proofs.AtomicProofs Proofs.CodecProps Proofs.FlatProofs Proofs.TreeProofs Proofs.TreeWireProofs.
+From OV Require Import Base.Bytes Base.Wire Generated Model.Str Model.Codec Proofs.BytesProofs Proofs.AtomicProofs Proofs.CodecProps Proofs.FlatProofs Proofs.TreeProofs Proofs.TreeWireProofs Proofs.FieldProofs.
 Import ListNotations.
 Open Scope Z_scope.
 
@@ -82,3 +82,16 @@ Theorem C03_nested_message_reencode : forall ts d,
   encode_msg ps None (VDict (in_dict (map as_m ws))) = Ok (msg, false).
 Proof. exact tree_reencode. Qed.
 Print Assumptions C03_nested_message_reencode.
+
+(* ---------- lists of structures (Proofs/FieldProofs.v, DynFieldProofs.v, PadProofs.v) ---------- *)
+(* a PDU which is the concatenation of the bytes of good members -- canonical leaves (leaf_rm x vv w with canon vv x w),
+   structures, STATIC-FIELDs (zero padding included) and DYNAMIC-LENGTH-FIELDs of structures of such, nested --
+   decodes, and encoding the decoded values yields the identical byte string *)
+Theorem C03_message_of_members_reencode : forall k rs,
+  (forall x, In x rs -> rgood k x) -> NoDup (map m_name (rms rs)) ->
+  let ps := map m_p (rms rs) in
+  (k + 1 <= fuel_of ps)%nat ->
+  decode_msg ps (rbytes rs) = Ok (VDict (out_dict (rms rs))) /\
+  encode_msg ps None (VDict (in_dict (rms rs))) = Ok (rbytes rs, false).
+Proof. intros k rs Hg ND ps Hf. destruct (rmessage_roundtrip k rs Hg ND Hf) as [E D]. split; assumption. Qed.
+Print Assumptions C03_message_of_members_reencode.
